@@ -19,8 +19,18 @@ Enumerated (see c07_shapes.creation_shapes / history_shapes; all counts asserted
                number of leaf categories and from each other — every tuple of lengths {0..5}^ns over 3 flat
                categories, ns in {1,2} (thorough {1,2,3}), and {0,2,4,6}^ns (thorough {0..6}^ns), ns in {1,2},
                over a 2-level forest with 4 leaves: 62 (quick) | 314 (thorough) shapes, 'mixed' values;
+             G the numeric TYPE alphabet (c07_shapes.NUM_TYPES: a bare int subclass, a bare float subclass,
+               decimal.Decimal in plain notation, fractions.Fraction with denominator 1 — numbers that are neither
+               `int` nor `float` but print as a plain decimal numeral) in every role: as series values (every third
+               one None; 1 and 2 series), as category labels x {1,6} categories, as both: 20 shapes; plus, as
+               series values only, fraction_ratio (Fraction(5,2), Fraction(-1,3), ..: a number whose str() is 'n/d'): 2 shapes;
+             H categories ASSIGNED instead of added one by one (c07_shapes.VIA_KINDS): `cd.categories = <generator>`;
+               assigned twice (the same labels); assigned over other labels; after an add_category; over a two-level
+               hierarchy; after the series were added — x label kinds {str, float, date} (one per cache kind): 18 shapes;
              XY/bubble: series counts as C x length patterns {all 3, ragged (0,1,3), all 1, all 0} x values,
-               300-point series, number formats.   Zero series is not generated for pie types (quantifier).
+               300-point series, number formats, and the numeric type alphabet (fraction_ratio included) as X, Y and
+               bubble size (10 shapes).
+               Zero series is not generated for pie types (quantifier).
   histories  from each chart type and each of 6 representative shapes, every replace_data sequence of
              length <=2 (quick) | <=3 (thorough) over the 6 shapes (one of them has zero series); the same
              sequences from EVERY chart of a supported type in EVERY corpus deck (mc.drivers.fixtures.corpus();
@@ -29,15 +39,18 @@ Enumerated (see c07_shapes.creation_shapes / history_shapes; all counts asserted
              harness-side (saved part rewritten with bare lxml, deck re-opened) to {idx 2,3,0/order 0,1,2;
              idx 0,1,2/order 2,0,1; idx 0,5,6/order 0,1,2}, one replace_data with 2..6 series (shrink, same,
              grow by 1,2,3) on one chart type per writer family (thorough: every non-pie type).
-             extra     on a one-series chart of EVERY category chart type, one replace_data with every ragged
-             shape of F (the first series re-uses the surviving c:ser, further ones are cloned) and with
-             int_wide / float_wide labels x {1,7} categories (c07_shapes.replace_extra_shapes: 66 | 318 shapes);
-             reuse     ONE chart-data object used twice (c07_shapes.reuse_pairs): add_chart(cd); cd grown through its own
-             API — add_category (flat, and a new multi-level top category), add_sub_category, add_series,
-             add_data_point; XY/bubble: every series position (first/middle/last) of 2- and 3-series data
-             grown, a series added — then chart.replace_data(cd) or a second add_chart(cd); one chart type
-             per writer family; the oracle runs after EACH use (both transitions checked), the reference
-             model of the second use is model(after-shape).
+             extra     on a one-series chart of EVERY chart type, one replace_data with (category types) every ragged
+             shape of F (the first series re-uses the surviving c:ser, further ones are cloned), int_wide /
+             float_wide labels x {1,7} categories, the typed shapes of G and the assigned-categories shapes of H
+             (c07_shapes.replace_extra_shapes: 106 | 358 shapes); XY/bubble types: the 10 typed shapes;
+             reuse     ONE chart-data object used twice (c07_shapes.reuse_pairs): add_chart(cd); cd changed through its
+             own API — add_category (flat, and a new multi-level top category), add_sub_category, add_series,
+             add_data_point, and `cd.categories = [...]` RE-ASSIGNED on the object that already has categories and
+             series (the same labels; more labels, points added; fewer labels, so the data turns ragged; numeric
+             labels over strings; flat labels over a two-level hierarchy); XY/bubble: every series position
+             (first/middle/last) of 2- and 3-series data grown, a series added — then chart.replace_data(cd) or
+             a second add_chart(cd); one chart type per writer family; the oracle runs after EACH use (both
+             transitions checked), the reference model of the second use is model(after-shape).
              Each history path is executed from scratch; the LAST transition of a path is the one checked (its
              prefixes are paths of their own), so every distinct transition is checked exactly once.
 
@@ -60,6 +73,12 @@ with bare lxml):
      the part minus `c:tx|c:cat|c:val|c:xVal|c:yVal|c:bubbleSize` of series is unchanged for every series
      present before and after (matched by c:idx), and the part with all series removed and plots without a
      surviving series removed is unchanged. min(before, supplied) series must survive.
+
+Input domain of "number": the types whose str() is a plain decimal numeral (int, float, their subclasses, Decimal in
+plain notation, integral Fraction) in every role, and — central triage decision — Fraction with a denominator as a
+VALUE (series value, XY/bubble X, Y, size; not as a label). The unchanged library writes c:v '5/2' for the latter and
+`series.values` raises ValueError: reported as `C07|readback|read-raised|op=..|kind=..|value-type=fraction_ratio`.
+Left out (arguable): bool (c:v 'True'), Decimal in exponent notation.
 
 Deviations from DESIGN.md: `None` category labels are not enumerated (undocumented input). With zero
 series the supplied categories cannot be reported by any plot, so only series/validity are checked.
@@ -88,7 +107,8 @@ RULE = ("state = canonical chart part; transition = one add_chart or replace_dat
         "categories, idx/order uniqueness, preservation of everything but series data). Creation inputs: the full "
         "product described in the module docstring per writable chart type; histories: all replace_data sequences "
         "up to the length bound over 6 shapes from each (type, shape) and from each corpus chart, plus one "
-        "replace_data per ragged / wide-numeric-label shape on every category chart type. Non-trivial = "
+        "replace_data per ragged / wide-numeric-label / typed-number / assigned-categories shape on every chart type, "
+        "plus one chart-data object used twice with a growth or a categories re-assignment in between. Non-trivial = "
         "transitions whose supplied data has at least one series with at least one point or category (the "
         "read-back comparison is non-empty), counted per distinct (chart, path).")
 ASSUMPTIONS = [
@@ -103,6 +123,12 @@ ASSUMPTIONS = [
     "trusted base: libxml2 XSD validation of /repo/spec ISO-IEC-29500-4 dml-chart.xsd after MCE preprocessing; lxml c14n",
     "reference model of the supplied data (mc/props/c07_shapes.py) is hand-written and does not import pptx",
     "None category labels and non-string series names are outside the documented input domain and not enumerated",
+    "numeric types: int, float, a bare int subclass, a bare float subclass, decimal.Decimal (plain notation), "
+    "fractions.Fraction with denominator 1, as values, labels, X values and bubble sizes; Fraction with a denominator as "
+    "values, X values and bubble sizes only (not as labels); bool and exponent-notation Decimal are outside the domain "
+    "(arguable); numpy scalars are not installed here and not enumerated",
+    "chart-data construction paths: add_category/add_sub_category calls, `categories = iterable` (6 paths of VIA_KINDS, flat "
+    "labels of 3 kinds only) and 5 re-assignments on a used object; assignment of hierarchical categories does not exist in the API",
     "numeric/date category labels are accepted in any plain decimal form equal in value to the number/serial",
 ]
 
@@ -587,10 +613,17 @@ def _ctx_rep(kind):
 
 
 def _readback_sig(aspect, ctx_s, spec):
+    if S.value_type(spec) in S.VALUE_ONLY_NUM_TYPES and aspect == "read-raised":
+        # one signature per rule x op x kind for a value-only numeric type, named in the signature; never merged with
+        # the signatures of the other types (those keep the writer family / data kind context below)
+        return "C07|readback|%s|%s|kind=%s|value-type=%s" % (aspect, ctx_s.split("|")[0], spec["k"], S.value_type(spec))
     if aspect.startswith("categories"):
         if S.has_empty_label(spec):
             # the reader, not a writer family, decides how an empty label comes back
             return "C07|readback|%s|labels=empty-string" % aspect
+        if spec.get("via"):
+            # the chart-data object, not a writer family, decides what categories an assignment leaves behind
+            return "C07|readback|%s|labels=%s|categories-via=%s" % (aspect, S.label_kind(spec), spec["via"])
         return "C07|readback|%s|%s|labels=%s" % (aspect, ctx_s, S.label_kind(spec))
     return "C07|readback|%s|%s" % (aspect, ctx_s)
 
@@ -887,7 +920,7 @@ def _case_of(item):
         return {"src": "gen", "type": t, "ops": [H[i] for i in item[2]], "plant": True}
     if mode == "x":
         t = _TYPES[item[1]]
-        return {"src": "gen", "type": t, "ops": [S.REPLACE_BASE, _XTRA[S.kind_of(t)][item[2]]], "plant": True}
+        return {"src": "gen", "type": t, "ops": [S.replace_base(S.kind_of(t)), _XTRA[S.kind_of(t)][item[2]]], "plant": True}
     if mode == "r":
         t = _TYPES[item[1]]
         name, b, a = S.reuse_pairs(S.kind_of(t))[item[2]]
